@@ -95,6 +95,14 @@ VARIANTS["C08"] = [
     V("twin-lexsort-tuple", "twin", SG, [(
         "        sort_keys = np.c_[-th['col'], th['row'], th['shank']]\n        inds = np.lexsort(sort_keys.T)\n",
         "        inds = np.lexsort((-th['col'], th['row'], th['shank']))\n")], (), ""),
+    V("unique-inverse", "fire", SG, [(
+        "        sort_keys = np.c_[-th['col'], th['row'], th['shank']]\n        inds = np.lexsort(sort_keys.T)\n",
+        "        sort_keys = np.c_[th['shank'], th['row'], -th['col']]\n        _, inds = np.unique(sort_keys, axis=0, return_inverse=True)\n")], ("D2",),
+      "inverse permutation: identical for self-inverse channel orders (all dense layouts)"),
+    V("lexsort-columns", "fire", SG, [("        inds = np.lexsort(sort_keys.T)\n", "        inds = np.lexsort(sort_keys)\n")], ("D2",), ""),
+    V("twin-unique-index", "twin", SG, [(
+        "        sort_keys = np.c_[-th['col'], th['row'], th['shank']]\n        inds = np.lexsort(sort_keys.T)\n",
+        "        sort_keys = np.c_[th['shank'], th['row'], -th['col']]\n        _, inds = np.unique(sort_keys, axis=0, return_index=True)\n")], (), "row-wise unique with return_index is the sorting permutation (sites are unique)"),
     V("twin-rc2xy-commuted", "twin", NP, [(
         "    x = col * grid['DX'] + grid['X0']", "    x = grid['X0'] + grid['DX'] * col")], (), ""),
 ]
@@ -169,6 +177,16 @@ VARIANTS["C02"] = [
     V("only-bin-candidate", "fire", SG, [(
         "(f for f in (sglx_file.with_suffix(\".bin\"), sglx_file.with_suffix(\".cbin\")) if f.exists())", "(f for f in (sglx_file.with_suffix(\".bin\"),) if f.exists())")],
       ("D3",), ""),
+    V("duration-from-cached-size", "fire", SG, [(
+        "                ftsec = (\n                    self.file_bin.stat().st_size // (self.dtype.itemsize * self.nc)\n                ) / self.fs\n",
+        "                ftsec = (self.nbytes // (self.dtype.itemsize * self.nc)) / self.fs\n")], ("D5",),
+      "needs: Reader(.cbin) -> decompress_file(keep_original=False) -> open() on the same object"),
+    V("twin-cached-size-refreshed", "twin", SG, [(
+        "                ftsec = (\n                    self.file_bin.stat().st_size // (self.dtype.itemsize * self.nc)\n                ) / self.fs\n",
+        "                ftsec = (self.nbytes // (self.dtype.itemsize * self.nc)) / self.fs\n"), (
+        "            self.file_bin.unlink()\n            self.file_bin = file_out\n", "            self.file_bin.unlink()\n            self.file_bin = file_out\n            self.nbytes = self.file_bin.stat().st_size\n"), (
+        "            self.file_bin = kwargs[\"out\"]\n", "            self.file_bin = kwargs[\"out\"]\n            self.nbytes = self.file_bin.stat().st_size\n")], (),
+      "cached size used, but refreshed wherever file_bin is rebound"),
     V("twin-os-replace", "twin", SG, [(
         "        file_tmp.rename(file_out)\n", "        file_tmp.replace(file_out)\n")], (), ""),
     V("twin-temp-suffix-renamed", "twin", SG, [(
@@ -343,8 +361,8 @@ VARIANTS["C11"] = [
       "n / fs * fs can be n - eps: one frame lost for some (n, fs)"),
     V("twin-int-of-quotient", "twin", SG, [(
         "self.file_bin.stat().st_size // (self.dtype.itemsize * self.nc)\n                ) / self.fs", "int(self.file_bin.stat().st_size / (self.dtype.itemsize * self.nc))\n                ) / self.fs")], (), ""),
-    V("twin-floor-nbytes", "twin", SG, [(
-        "self.file_bin.stat().st_size // (self.dtype.itemsize * self.nc)\n                ) / self.fs", "np.floor(self.nbytes / self.dtype.itemsize / self.nc)\n                ) / self.fs")], (), ""),
+    V("twin-floor-call", "twin", SG, [(
+        "self.file_bin.stat().st_size // (self.dtype.itemsize * self.nc)\n                ) / self.fs", "np.floor(self.file_bin.stat().st_size / self.dtype.itemsize / self.nc)\n                ) / self.fs")], (), ""),
 ]
 
 # ------------------------------------------------------------------------------------------------ C10
@@ -388,6 +406,14 @@ VARIANTS["C16"] = [
     V("callsite-range-all", "fire", VO, [("data=chunk, max_voltage=_sr.range_volts[:ncv], fs=_sr.fs)", "data=chunk, max_voltage=_sr.range_volts[:-1], fs=_sr.fs)")], ("D4",),
       "identical for 385-channel files with one sync, wrong for nidq or subset files"),
     V("twin-clip", "twin", VO, [("    mute = np.maximum(0, 1 - scipy.signal.convolve(saturation, win, mode='same'))\n", "    mute = np.clip(1 - scipy.signal.convolve(saturation, win, mode='same'), 0, 1)\n")], (), ""),
+    V("twin-count-form", "twin", VO, [(
+        "    saturation = np.mean(np.abs(data) > max_voltage * 0.98, axis=0)\n", "    saturation = np.count_nonzero(np.abs(data) > max_voltage * 0.98, axis=0)\n"), (
+        "np.logical_or(saturation > proportion, n_diff_saturated > proportion)", "np.logical_or(saturation > proportion * data.shape[0], n_diff_saturated > proportion)")], (),
+      "integer-count form of the strict proportion test"),
+    V("count-ge-ceil", "fire", VO, [(
+        "    saturation = np.mean(np.abs(data) > max_voltage * 0.98, axis=0)\n", "    saturation = np.count_nonzero(np.abs(data) > max_voltage * 0.98, axis=0)\n"), (
+        "np.logical_or(saturation > proportion, n_diff_saturated > proportion)", "np.logical_or(saturation >= int(np.ceil(proportion * data.shape[0])), n_diff_saturated > proportion)")], ("D1",),
+      "differs exactly when proportion * n_channels is a whole number"),
     V("twin-bitor", "twin", VO, [("np.logical_or(saturation > proportion, n_diff_saturated > proportion)", "(saturation > proportion) | (n_diff_saturated > proportion)")], (), ""),
 ]
 
@@ -443,6 +469,12 @@ VARIANTS["C07"] = [
     V("impulse-at-0", "fire", FO, [("    np.put(dephas, 1, 1)\n", "    np.put(dephas, 0, 1)\n")], ("D4",), "no shift at all"),
     V("s-shape-axis-dropped", "fire", FO, [("        s_shape[axis] = 1\n", "")], ("D3",), ""),
     V("resync-not-negated", "fire", WF, [("    spike_resync = fshift(spike2, -shift_computed)\n", "    spike_resync = fshift(spike2, shift_computed)\n")], ("D4",), ""),
+    V("analytic-ramp-linspace", "fire", FO, [(
+        "    dephas = np.zeros(shape)\n    np.put(dephas, 1, 1)\n    dephas = scipy.fft.rfft(dephas, axis=axis)\n", "    dephas = np.linspace(0, -np.pi, ns // 2 + 1).reshape(shape * 0 + 1)\n"), (
+        "    W *= np.exp(1j * np.angle(dephas) * s)\n", "    W *= np.exp(1j * dephas * s)\n")], ("D4",), "ramp ends at -pi: right for even ns, too steep by ns/(ns-1) for odd ns"),
+    V("twin-analytic-ramp-exact", "twin", FO, [(
+        "    dephas = np.zeros(shape)\n    np.put(dephas, 1, 1)\n    dephas = scipy.fft.rfft(dephas, axis=axis)\n", "    dephas = (-2 * np.pi * np.arange(ns // 2 + 1) / ns).reshape(shape * 0 + 1)\n"), (
+        "    W *= np.exp(1j * np.angle(dephas) * s)\n", "    W *= np.exp(1j * dephas * s)\n")], (), "exact analytic ramp -2*pi*k/ns (shape handling aside)"),
     V("twin-ns-keyword", "twin", FO, [("scipy.fft.irfft(W, ns, axis=axis)", "scipy.fft.irfft(W, n=ns, axis=axis)")], (), ""),
     V("twin-not-iscomplex", "twin", FO, [("    do_fft = np.invert(np.iscomplexobj(w))\n", "    do_fft = not np.iscomplexobj(w)\n")], (), ""),
 ]
